@@ -101,6 +101,45 @@ func c15FindG(gs []vlib.Goroutine, id string) *vlib.Goroutine {
 	return nil
 }
 
+// c15Innermost returns the innermost frame of g that belongs to the snowflake
+// module (code under test or in-package harness), "" if none.
+func c15Innermost(g *vlib.Goroutine) string {
+	for _, f := range g.Frames {
+		if strings.Contains(f, "snowflake.git/") && !strings.HasPrefix(f, "created by ") {
+			return f
+		}
+	}
+	return ""
+}
+
+// c15EndOnLock: g is parked on a mutex directly inside Peers.End / Peers.end
+// (not merely a repeated End waiting in sync.Once for the first one).
+func c15EndOnLock(g *vlib.Goroutine) bool {
+	if !strings.HasPrefix(g.State, "sync.Mutex.Lock") {
+		return false
+	}
+	in := c15Innermost(g)
+	if strings.Contains(in, "(*Peers).end") { // also the method-value wrapper (*Peers).end-fm
+		return true
+	}
+	return strings.HasSuffix(in, "(*Peers).End") && !g.HasFrame("sync.(*Once)")
+}
+
+// c15CollectInHandover: g is parked for good inside Collect itself, i.e. in
+// its hand-over to the channel: a plain `chan send`, or a `select` (the
+// hand-over select has no timer case; Collect's only other select has a
+// default and cannot park). A goroutine inside Catch or inside a hook has a
+// deeper snowflake frame and does not match.
+func c15CollectInHandover(g *vlib.Goroutine) bool {
+	if !strings.HasPrefix(g.State, "chan send") && !strings.HasPrefix(g.State, "select") {
+		return false
+	}
+	if strings.HasPrefix(g.State, "select (no cases)") {
+		return false
+	}
+	return strings.HasSuffix(c15Innermost(g), "(*Peers).Collect")
+}
+
 // c15PionCount counts goroutines that have a frame of a pion package (the
 // ICE agent, DTLS, SCTP, mux loops of a PeerConnection that was not closed).
 func c15PionCount() (int, map[string]int) {
